@@ -140,12 +140,18 @@ Inductive obs :=
 | OEnq (p : pkt)                       (* request_queue.put *)
 | OTx (p : pkt)                        (* packet handed to the link *)
 | ORx (p : pkt)                        (* packet taken from the link by the dispatcher *)
-| ORaise (x : Z)                       (* API call raised: 1 KeyError 2 AttributeError 3 struct.error 5 TypeError *)
+| ORaise (x : Z)                       (* API call raised: 1 KeyError 2 AttributeError 3 struct.error 5 TypeError 6 ValueError *)
 | OUpd (cb name : Z) (v : uval)        (* update callback cb(name, value) *)
 | OAll                                 (* all_updated callbacks *)
 | OMisc (cb name : Z) (r : mres).      (* callback of a misc request *)
 
-Definition X_KEY := 1. Definition X_ATTR := 2. Definition X_STRUCT := 3. Definition X_TYPE := 5.
+Definition X_KEY := 1. Definition X_ATTR := 2. Definition X_STRUCT := 3. Definition X_TYPE := 5. Definition X_VALUE := 6.
+
+(* Names are abstract: n >= 0 stands for a string with exactly one dot ('group.name': in the table or not); n < 0 for a
+   string that does not split into exactly two parts at its dots ('a.b.c', 'a.b.', 'ab', '').  Only
+   Param.request_param_update tells the two kinds of unknown names apart: Toc.get_element_id unpacks split('.') into
+   [group, name] without catching the ValueError. *)
+Definition read_exn (name : Z) : Z := if name <? 0 then X_VALUE else X_STRUCT.
 
 Inductive event :=
 | EvSet (name : Z) (v : uval)
@@ -347,7 +353,7 @@ Definition step (c : config) (s : state) (ev : event) : option (state * list obs
          end
   | EvRead name =>
     match find_name (toc c) name with
-    | None => Some (s, [ORaise X_STRUCT])     (* struct.pack('<H', None) *)
+    | None => Some (s, [ORaise (read_exn name)])   (* struct.pack('<H', None), or the unpacking of split('.') *)
     | Some e => let p := (1, id2 (e_id e)) in Some (enq s (mkReq p None), [OEnq p])
     end
   | EvMisc cmd name cb =>
